@@ -19,7 +19,17 @@ var (
 	VerifRootOrder func(roots []string) []string
 	// VerifRetireOrder lets a harness choose the order in which merged parents are retired.
 	VerifRetireOrder func(roots []string) []string
+	// VerifDeleteOrder lets a harness choose the order in which vacuum deletes objects
+	// (node objects, then version objects; each list comes from a map).
+	VerifDeleteOrder func(names []string) []string
 )
+
+func verifDeleteOrder(names []string) []string {
+	if VerifDeleteOrder == nil {
+		return names
+	}
+	return VerifDeleteOrder(names)
+}
 
 func verifS3(S3 S3Interface, storage *S3BucketInfo) S3Interface {
 	if VerifS3 == nil {
